@@ -37,6 +37,9 @@ def states(tier, seed):
         # a geometry variable that moves the spanwise stations away from those of the user's mesh
         if model == "wingbox" and fm is not None and pm in ("none", "two"):
             st.append(dict(pf=pf, side=side, ny=ny, model=model, nfac=nfac, fuel=fm, reserve=res, pm=pm, span=13.0 if side != "full" else 7.5, yshear=True, fam=fam))
+        # the same structure at model scale (millimetre elements): mass and load identities carry no length scale
+        if pf == "swept" and pm == "none" and fm is None:
+            st.append(dict(pf=pf, side=side, ny=ny, model=model, nfac=nfac, fuel=fm, reserve=res, pm=pm, gscale=2.0e-3, fam=fam))
         # every inertial load source ALONE: without structural weight relief (the load factor reaches each source by its own wiring)
         if pf == "swept" and (fm is not None or pm != "none") and not (fm is not None and pm != "none" and tier == "quick"):
             st.append(dict(pf=pf, side=side, ny=ny, model=model, nfac=nfac, fuel=fm, reserve=res, pm=pm, relief=False, fam=fam))
@@ -49,11 +52,17 @@ def run_state(s):
 
     ny = s["ny"]
     sym = s["side"] != "full"
-    m = gen.make_mesh(s["pf"], 2, ny, s["side"], s["fam"], asym=(s["side"] == "full"), span=10.0, chord=1.6)
+    m = gen.make_mesh(s["pf"], 2, ny, s["side"], s["fam"], asym=(s["side"] == "full"), span=10.0, chord=1.6) * s.get("gscale", 1.0)
     relief = s.get("relief", True)
     kw = dict(struct_weight_relief=relief, distributed_fuel_weight=s["fuel"] is not None)
     if s["model"] == "wingbox":
         kw["Wf_reserve"] = s["reserve"]
+    if s.get("gscale"):
+        gs_ = s["gscale"]
+        if s["model"] == "tube":
+            kw["thickness_cp"] = np.array([0.02, 0.02]) * gs_
+        else:
+            kw.update(spar_thickness_cp=np.array([0.006, 0.006]) * gs_, skin_thickness_cp=np.array([0.012, 0.012]) * gs_)
     if s.get("span"):
         kw["span"] = s["span"]
         kw["yshear_cp"] = np.array([0.0, 0.2, -0.1]) if s.get("yshear") else np.zeros(3)
